@@ -205,7 +205,11 @@ def build_local_fermionic_dense(terms, bases, like="numpy"):
     elements = build_local_fermionic_elements(terms, bases)
 
     kwargs = {}
-    if any(isinstance(val, complex) for val in elements.values()):
+    if any(
+        isinstance(val, complex) or "complex" in str(getattr(val, "dtype", ""))
+        for val in elements.values()
+    ):
+        # (numpy's single precision complex is not a python complex)
         # n.b. default (real) zeros would silently drop imaginary parts
         kwargs["dtype"] = "complex128"
 
